@@ -85,6 +85,16 @@ def findRootClasses(
         system: model.System
         ) -> Sequence[Tuple[str, Union[model.Class, Sequence[model.Class]]]]:
     roots: Dict[str, Union[model.Class, List[model.Class]]] = {}
+    def addRoot(cls: model.Class) -> None:
+        name = cls.fullName()
+        others = roots.get(name)
+        if isinstance(others, list):
+            # Classes with an unresolved base of that name are filed under it already:
+            # the class joins them, like they would join it if they came after it.
+            if cls not in others:
+                others.insert(0, cls)
+        else:
+            roots[name] = cls
     for cls in system.objectsOfType(model.Class):
         if ' ' in cls.name or not cls.isVisible:
             continue
@@ -99,13 +109,13 @@ def findRootClasses(
                 elif not base.isVisible:
                     # The base object is filtered out (not visible): it must not be 
                     # named in the index, the class is presented like a root class.
-                    roots[cls.fullName()] = cls
+                    addRoot(cls)
                 elif base.system is not system:
                     # Edge case with multiple systems, is it even possible to run into this code?
-                    roots[base.fullName()] = base
+                    addRoot(base)
         else:
             # This is a common root class. 
-            roots[cls.fullName()] = cls
+            addRoot(cls)
     return sorted(roots.items(), key=lambda x:x[0].lower())
 
 def isPrivate(obj: model.Documentable) -> bool:
